@@ -20,14 +20,12 @@ From PV Require Import Proofs.AgreeEval Proofs.AgreeSigEnc Proofs.AgreeSig Proof
          lax_contract: o_checksig answers false for every blob pycoin's lax DER reader rejects (outside the strict
          region Core asks the oracle about every non-empty blob, pycoin only about those it can parse);
    and only when sv = SV_BASE (signature blobs are deleted from the script code):
-   (dec) script_decodable script = true: GetOp decodes the script to its end.  On such scripts pycoin's
-         _delete_signature (plain push, bottom-first, after /repo 2ba5b6d) and Core's FindAndDelete (top-first) are
-         PROVED equal (AgreeFad.fad_ok_dec) — no FindAndDelete hypothesis is left.  On an undecodable script both
-         sides fail at the bad instruction at the latest, but their script codes differ behind it (C04 finding
-         undecodable-script-code), so the step-by-step simulation does not apply: excluded, not refuted;
    (size) hash oracles return strings shorter than 2^32 bytes, the initial stack has fewer than 2^32 items each
          shorter than 2^32 bytes: a longer blob among CHECKMULTISIG's signatures makes _delete_signature raise
-         OverflowError (a crash) where Core goes on. *)
+         OverflowError (a crash) where Core goes on.
+   There is NO FindAndDelete hypothesis and NO decodability hypothesis: pycoin's _delete_signature (plain push,
+   bottom-first, walk stopping at the first undecodable instruction: /repo 2ba5b6d, 50939fb) and Core's FindAndDelete
+   (top-first) are PROVED equal on every script code (AgreeFad.fad_ok_all). *)
 Theorem C03_eval_agrees : forall (o : oracles) (flags : N) (sv : sigversion) (ctx : txctx) (script : bytes) (st : stack),
   c03_hyps o flags sv script st ->
   res_agree stack_eqb (VMpy.eval_script o flags sv ctx script st) (VMcore.EvalScript o flags sv ctx script st) = true.
@@ -52,9 +50,9 @@ Theorem C03_eval_agrees_partial : forall (o : oracles) (flags : N) (sv : sigvers
 Proof. exact eval_agree_no_sig. Qed.
 Print Assumptions C03_eval_agrees_partial.
 
-(* the script-code equality that replaced the FindAndDelete hypothesis *)
+(* the script-code equality that replaced the FindAndDelete hypothesis: every script code, blobs < 2^32 bytes *)
 Theorem C03_script_code_agrees : forall (tail : bytes) (sigs : list bytes),
-  script_decodable tail = true -> Forall item_ok sigs ->
+  Forall item_ok sigs ->
   delete_signatures tail (rev sigs) = Ret (fold_left (fun c sg => find_and_delete (push_encode sg) c) sigs tail).
 Proof. exact script_code_agrees. Qed.
 Print Assumptions C03_script_code_agrees.
@@ -65,3 +63,21 @@ Example C03_hyps_satisfiable :
 Proof. exact hyps_satisfiable. Qed.
 Example C03_partial_covered_example : no_sig_ops [x51; x63; x52; x67; x53; x68; x76; x93; x87; xa8] = true.
 Proof. exact partial_covered_example. Qed.
+
+(* ---- remaining hypotheses of C03_eval_agrees (record AgreeTop.c03_hyps), each with the reason it is forced ----------
+   h_minimalif  sv = SV_BASE -> VERIFY_MINIMALIF clear.        pycoin's VM applies MINIMALIF whenever the bit is set; Core
+                only under SigVersion WITNESS_V0.  Example: flags = MINIMALIF, SV_BASE, stack [02], script 63 68
+                (IF ENDIF): pycoin VFail, Core VOk [].  check_solution strips the bit for the BASE runs.
+   h_wpubkey    sv = SV_BASE -> VERIFY_WITNESS_PUBKEYTYPE clear.  Same reason for the compressed-key rule of CHECKSIG /
+                CHECKMULTISIG: flags = WITNESS_PUBKEYTYPE, SV_BASE, a 65-byte key: pycoin VFail, Core goes on.
+   h_strict     strict flags = true  \/  lax_contract o sv.     With none of DERSIG/LOW_S/STRICTENC set pycoin asks the
+                oracle only about blobs its own lax DER reader parses, Core about every non-empty blob; they agree iff
+                the oracle says false on what pycoin's reader rejects (known finding lax-der-parser: Core's lax parser
+                accepts e.g. a wrong sequence length byte, pycoin's does not).
+   h_hash       sv = SV_BASE -> every hash oracle output is shorter than 2^32 bytes   (true of the real hashes: 20/32)
+   h_stack      sv = SV_BASE -> the initial stack has < 2^32 items, each < 2^32 bytes (check_solution: <= 520 bytes)
+                Both keep every blob that can reach _delete_signature below 2^32 bytes; at 2^32 its
+                size.to_bytes(4, "little") raises OverflowError (VCrash) while Core's FindAndDelete goes on, e.g. a
+                2-of-2 CHECKMULTISIG whose top signature is well formed and whose other signature blob has 2^32 bytes.
+   Nothing else: no restriction on the script (any bytes, decodable or not, any length), flags, context or stack depth
+   beyond the above; for sv = SV_WITNESS_V0 only h_strict is left (C03_eval_agrees_witness_v0). *)
